@@ -216,6 +216,41 @@ THkFree == /\ Tr[l].e = "HkFree"
               /\ ks' = [ks EXCEPT ![e.obj] = NoKdf]
            /\ UNCHANGED <<hs, ms, D, kc>>
 
+(***************************************************************************)
+(* Relational (opaque) judgement of key derivation, for dense sweeps that  *)
+(* would be too slow to interpret: a long reference output R for given     *)
+(* parameters is learned (learn = 1; the same output is also validated by  *)
+(* the interpreted specification elsewhere in the run).  Then              *)
+(*   KdfPrefix  a one-shot output of len bytes for the same parameters is  *)
+(*              the first len bytes of R ("shorter outputs are prefixes of *)
+(*              longer ones");                                             *)
+(*   HkExtract / HkExpand with op = 1: the object only counts the bytes it *)
+(*              has served; each call returns the next bytes of R, zeros   *)
+(*              past byte 8160, and -1 iff it was asked to go past it      *)
+(*              ("the concatenation equals the one-shot output").          *)
+(***************************************************************************)
+RefOf(tag) == (CHOOSE p \in D : p[1] = tag)[2]
+TKdfLearn == /\ Tr[l].e = "KdfLearn"
+             /\ D' = D \cup {<<Tr[l].tag, Tr[l].out>>}
+             /\ UNCHANGED <<hs, ms, ks, kc>>
+TKdfPrefix == /\ Tr[l].e = "KdfPrefix"
+              /\ LET e == Tr[l] IN
+                 Judge(Learned(e.tag) /\ e.res = 0 /\ e.canary = 1 /\ e.out = SubSeq(RefOf(e.tag), 1, e.len), l, e,
+                       IF Learned(e.tag) THEN SubSeq(RefOf(e.tag), 1, e.len) ELSE "reference was never learned")
+              /\ UNCHANGED <<hs, ms, ks, D, kc>>
+StreamSlice(R, from, n) == [i \in 1..n |-> IF from + i <= HkdfMax /\ from + i <= Len(R) THEN R[from + i] ELSE 0]
+TKdfExtract == /\ Tr[l].e = "KdfExtract"
+               /\ ks' = [ks EXCEPT ![Tr[l].obj] = [prk |-> Tr[l].tag, t |-> <<>>, counter |-> 0, posn |-> 0, live |-> TRUE, total |-> 0]]
+               /\ UNCHANGED <<hs, ms, D, kc>>
+TKdfExpand == /\ Tr[l].e = "KdfExpand"
+              /\ LET e == Tr[l]
+                     s == ks[e.obj]
+                     x == StreamSlice(RefOf(s.prk), s.total, e.len)
+                     r == IF e.len > 0 /\ s.total + e.len > HkdfMax THEN -1 ELSE 0
+                 IN  /\ Judge(s.live /\ Learned(s.prk) /\ e.out = x /\ e.res = r /\ e.canary = 1 /\ e.ocanary = 1, l, e, [res |-> r, out |-> x])
+                     /\ ks' = [ks EXCEPT ![e.obj] = [s EXCEPT !.total = s.total + e.len]]
+              /\ UNCHANGED <<hs, ms, D, kc>>
+
 \* ---- PBKDF2
 TPbkdf2 == /\ Tr[l].e = "Pbkdf2"
            /\ LET e == Tr[l]
@@ -234,7 +269,7 @@ TPbBlock == /\ Tr[l].e = "PbBlock"
 \* events of the other families (system-level traces): stuttering steps for this specification
 Own == {"Reset", "Garbage", "Hash", "HInit", "HReinit", "HUpdate", "HFinal", "HFree", "Hmac", "HmInit", "HmReinit", "HmUpdate",
         "HmFinal", "HmFree", "Hkdf", "HkdfHead", "PbHead", "HkdfBlock", "HkExtract", "HkExpand", "HkExpandCtl", "HkFree",
-        "Pbkdf2", "PbBlock", "PbLink", "PbXor", "HashHuge"}
+        "Pbkdf2", "PbBlock", "PbLink", "PbXor", "HashHuge", "KdfLearn", "KdfPrefix", "KdfExtract", "KdfExpand"}
 TForeign == Tr[l].e \notin Own \cup {"Fault", "San", "Hang", "Garbled"} /\ UNCHANGED <<hs, ms, ks, D, kc>>
 
 (***************************************************************************)
@@ -282,7 +317,7 @@ Next == /\ l <= Len(Tr)
         /\ l' = l + 1
         /\ \/ TReset \/ TGarbage \/ THash \/ THInit \/ THUpdate \/ THFinal \/ THFree
            \/ THmac \/ THmInit \/ THmUpdate \/ THmFinal \/ THmFree
-           \/ TForeign \/ THashHuge \/ TPbLink \/ TPbXor \/ THkdf \/ THkdfHead \/ TPbHead \/ THkdfBlock \/ THkExtract \/ THkExpand \/ THkExpandCtl \/ THkFree \/ TPbkdf2 \/ TPbBlock
+           \/ TForeign \/ TKdfLearn \/ TKdfPrefix \/ TKdfExtract \/ TKdfExpand \/ THashHuge \/ TPbLink \/ TPbXor \/ THkdf \/ THkdfHead \/ TPbHead \/ THkdfBlock \/ THkExtract \/ THkExpand \/ THkExpandCtl \/ THkFree \/ TPbkdf2 \/ TPbBlock
 
 Spec == Init /\ [][Next]_vars
 TraceAccepted == Accepted(Len(Tr))
